@@ -449,6 +449,55 @@
    "strreplace-rec" true "printfn-rec" true "macro-eval-rec" true "yield-chain" true "child-chain-marshal" true})
 
 # ---------------------------------------------------------------------------
+# native recursion that accumulates over several resumptions: a chain of fibers nested by `resume`
+# whose intermediate fibers do not catch :yield, so a yield of the innermost fiber leaves the whole
+# chain suspended and linked through fiber->child. Resuming the top re-enters the chain natively
+# (janet_continue through every child); the innermost fiber then nests `step` fibers further and
+# yields again. Every round stays far below the guard, the chain as a whole does not.
+# n = total length of the chain (top included), step = fibers added per round.
+
+(defn accum-chain [step n mode]
+  (var len 1)        # fibers in the chain, the top included
+  (var target 1)
+  (var finish false)
+  (defn level []
+    (var ret nil)
+    (while true
+      (cond
+        finish (do (set ret len) (break))
+        (< len target) (do (++ len)
+                         # :d = the new fiber catches neither yields nor errors of the fibers below it
+                         (set ret (resume (fiber/new level :d)))
+                         (break))
+        (yield len)))
+    ret)
+  (def top (fiber/new level :y))
+  (var rounds 0)
+  (while (< target n)
+    (set target (min n (+ target step)))
+    (++ rounds)
+    (def got (resume top))
+    (unless (= got target) (errorf "chain length %v after round %d, expected %d" got rounds target)))
+  (gccollect)
+  (case mode
+    :finish (do (set finish true)
+              (def r (resume top))
+              (unless (and (= r n) (= :dead (fiber/status top))) (errorf "chain unwound to %v (%v)" r (fiber/status top)))
+              r)
+    :cancel (let [r (protect (cancel top :stop))]
+              # the error travels down the chain natively and kills every fiber on its way back up
+              (if (and (not (r 0)) (= (r 1) :stop)) (fiber/status top) (error (r 1))))
+    :abandon (do (gccollect) (fiber/status top))))
+
+(def accum-steps {"step-1" 1 "step-7" 7 "step-100" 100 "step-300" 300 "step-700" 700})
+(def accum-shape-names ["step-1" "step-7" "step-100" "step-300" "step-700"])
+(def accum-consumers
+  @{"resume-chain" (fn [step n] (accum-chain step n :finish))
+    "cancel-chain" (fn [step n] (accum-chain step n :cancel))
+    "abandon-chain" (fn [step n] (accum-chain step n :abandon))})
+(def accum-consumer-names ["resume-chain" "cancel-chain" "abandon-chain"])
+
+# ---------------------------------------------------------------------------
 # chains through the collector, assembler, unmarshaller
 
 (defn fiber-env-chain [n]
@@ -617,6 +666,7 @@
 (each c peg-compile-consumer-names (each s peg-compile-shape-names (cat "pegc" c s (kind-of s) "-")))
 (each c peg-match-consumer-names (each s peg-match-shape-names (cat "pegm" c s (kind-of s) "-")))
 (each c vm-consumer-names (cat "vm" c "-" "acyclic" "-"))
+(each c accum-consumer-names (each s accum-shape-names (cat "accum" c s "acyclic" "-")))
 (each c image-consumer-names (each s image-shape-names (cat "image" c s "acyclic" "-")))
 (each c chain-consumer-names (cat "chain" c "-" "acyclic" "-"))
 (each c compose-consumer-names (cat "compose" c "-" "acyclic" "-"))
@@ -643,6 +693,7 @@
     "pegc" ((peg-compile-consumers consumer) ((peg-compile-shapes shape) n) (or (<= n 8) (not (peg-exponential shape))))
     "pegm" ((peg-match-consumers consumer) ((peg-match-shapes shape) n))
     "vm" ((vm-consumers consumer) n)
+    "accum" ((accum-consumers consumer) (accum-steps shape) n)
     "image" ((image-consumers consumer) ((image-shapes shape) n))
     "chain" ((chain-consumers consumer) n)
     "compose" ((compose-consumers consumer) n)
